@@ -217,6 +217,8 @@ def run_scheduled(case, prefix=None, mp=None, chooser=None):
     sched.register_main()
     FP, FT = S.make_fakes(sched, lines.ProcessLine, lines.ThreadLine)
     saved = (cpm.spawn_context, cpm.MyProcessLine, cpm.ThreadLine)
+    if isinstance(saved[1], type) and issubclass(saved[1], lines.ProcessLine):
+        sched.real_my_process_line = saved[1]       # phase 6: the fake process executes the REAL MyProcessLine.start/run for read_wait
     saved_ctx = (CobaContext.logger, CobaContext.cacher, CobaContext.store)
     del FL.CALLS[:]
     try:
@@ -252,7 +254,8 @@ def run_scheduled(case, prefix=None, mp=None, chooser=None):
         outs = [None if o == NONE_CODE else o for o in outs]
     calls = collections.Counter(k for k, _ in FL.CALLS)
     return {"outs": outs, "outcome": outcome, "trace": list(sched.log), "calls": dict(calls),
-            "choices": list(sched.choices), "escaped": list(sched.escaped), "steps": sched.steps}
+            "choices": list(sched.choices), "escaped": list(sched.escaped), "steps": sched.steps,
+            "rw_programs": [dict(r, ops=list(r["ops"])) for r in sched.rw_programs], "rw_starts": list(sched.rw_starts)}
 
 
 def run_history_scheduled(case):
@@ -272,6 +275,8 @@ def run_history_scheduled(case):
     sched.register_main()
     FP, FT = S.make_fakes(sched, lines.ProcessLine, lines.ThreadLine)
     saved = (cpm.spawn_context, cpm.MyProcessLine, cpm.ThreadLine)
+    if isinstance(saved[1], type) and issubclass(saved[1], lines.ProcessLine):
+        sched.real_my_process_line = saved[1]       # phase 6: the fake process executes the REAL MyProcessLine.start/run for read_wait
     saved_ctx = (CobaContext.logger, CobaContext.cacher, CobaContext.store)
     del FL.CALLS[:]
     runs = []
@@ -316,6 +321,117 @@ def run_history_scheduled(case):
             run["outs"] = [None if o == NONE_CODE else o for o in outs]
         run["calls"] = dict(percall.get(k, {})) if (k or not inprocess(case)) else {}
         run.update({"choices": list(sched.choices), "escaped": list(sched.escaped), "steps": sched.steps})
+    return runs
+
+
+def run_overlap_scheduled(case):
+    """phase 6: 2-3 filter() calls on the SAME Multiprocessor object that are ALIVE AT THE SAME TIME: the generators are created up front
+    (nothing runs until the first `next`), then the caller follows `case["script"]` — a list of call indices, each entry = "pull one more
+    output from that call's generator" (a call whose `abandon` count is reached is closed at that moment) — and finally drains what is
+    still open, in order.  One scheduler runs the loaders, workers and callbacks of all calls together; every logged action carries the
+    index `c` of the call it belongs to (the caller's own steps are labelled with the call whose generator it is driving).
+    -> list of runs, one per call (same shape as run_history_scheduled)"""
+    from props import c08_sched as S, c08_filters as FL
+    import coba.pipes.multiprocessing as cpm
+    import coba.pipes.lines as lines
+    from coba.context import CobaContext
+    from coba.exceptions import CobaExit
+    cs = calls_of(case)
+    sc = case.get("sched") or {}
+    rng = Rng(sc.get("seed", 0), "c08-sched") if not sc.get("det") else None
+    sched = S.Sched(S.PolicyChooser(rng, sc.get("policy"), sc.get("prefix")),
+                    step_limit=6000 * len(cs) + 400 * sum(len(c["items"]) for c in cs), wall=40.0)
+    sched.register_main()
+    FP, FT = S.make_fakes(sched, lines.ProcessLine, lines.ThreadLine)
+    saved = (cpm.spawn_context, cpm.MyProcessLine, cpm.ThreadLine)
+    if isinstance(saved[1], type) and issubclass(saved[1], lines.ProcessLine):
+        sched.real_my_process_line = saved[1]
+    saved_ctx = (CobaContext.logger, CobaContext.cacher, CobaContext.store)
+    del FL.CALLS[:]
+    st = [{"outs": [], "outcome": None, "end": None} for _ in cs]
+    lin = {}
+    cur = [0]
+
+    def switch(k):
+        lin[cur[0]] = sched.lineages
+        cur[0] = k
+        sched.call = k
+        sched.main.call = k
+        sched.lineages = lin.get(k, 0)
+
+    hung = [False]
+    try:
+        cpm.spawn_context, cpm.MyProcessLine, cpm.ThreadLine = S.FakeContext(sched), FP, FT
+        mp = build(case, FL.SpecFilter(full_table(case)))
+        sched.np_probe = None
+        gens = [mp.filter(make_items(c)) for c in cs]
+        sched.none_code = None
+
+        def finish(k, outcome):
+            st[k]["outcome"] = outcome
+            if outcome["kind"] != "hang":
+                sched.act("mDone")
+            st[k]["end"] = len(sched.log)
+
+        def pull(k, drain=False):
+            """one `next` on call k (or all of them when draining)"""
+            if st[k]["outcome"] is not None or hung[0]:
+                return
+            switch(k)
+            c = cs[k]
+            ab = c.get("abandon")
+            while True:
+                try:
+                    o = next(gens[k])
+                except StopIteration:
+                    return finish(k, {"kind": "ok"})
+                except S.Hang as h:
+                    hung[0] = True
+                    return finish(k, {"kind": "hang", "reason": str(h.reason)})
+                except (Exception, CobaExit) as e:
+                    a0 = e.args[0] if len(getattr(e, "args", ())) == 1 and isinstance(e.args[0], str) else None
+                    return finish(k, {"kind": "raised", "type": type(e).__name__, "msg": str(e)[:200], "item": err_id(e), "arg": a0})
+                st[k]["outs"].append(o)
+                if ab is not None and len(st[k]["outs"]) >= ab:
+                    sched.act("cAbandon")
+                    try:
+                        gens[k].close()
+                    except S.Hang as h:
+                        hung[0] = True
+                        return finish(k, {"kind": "hang", "reason": str(h.reason)})
+                    except Exception as e:          # noqa
+                        return finish(k, {"kind": "close-raised", "type": type(e).__name__, "msg": str(e)[:200]})
+                    return finish(k, {"kind": "closed"})
+                if not drain:
+                    return
+
+        for k in case["script"]:
+            pull(k)
+        for k in range(len(cs)):
+            pull(k, drain=True)
+    finally:
+        cpm.spawn_context, cpm.MyProcessLine, cpm.ThreadLine = saved
+        sched.shutdown()
+        CobaContext.logger, CobaContext.cacher, CobaContext.store = saved_ctx
+    percall = collections.defaultdict(collections.Counter)
+    for key, _ in FL.CALLS:
+        parts = key.split("/")
+        percall[int(parts[1]) if len(parts) == 3 else 0][key] += 1
+    runs = []
+    for k, s_ in enumerate(st):
+        if s_["outcome"] is None:
+            break                                   # an earlier call hung
+        end = s_["end"] if s_["end"] is not None else len(sched.log)
+        run = {"outs": s_["outs"], "outcome": s_["outcome"], "obj": {"nprocs": 0, "excs": []},
+               "trace": [a for a in sched.log[:end] if a.get("c") == k], "stale": [],
+               "calls": dict(percall.get(k, {})) if not inprocess(case) else {},
+               "choices": list(sched.choices), "escaped": list(sched.escaped), "steps": sched.steps}
+        if s_["outcome"]["kind"] == "hang":
+            outs = [a["x"] for a in run["trace"] if a["a"] == "cGet" and a.get("x", -1) != -1]
+            run["outs"] = [None if o == NONE_CODE else o for o in outs]
+        runs.append(run)
+    if len(runs) >= 2 and all(s_["end"] is not None for s_ in st[:2]):
+        runs[0]["joint"] = [a for i, a in enumerate(sched.log) if a.get("c") in (0, 1) and i < st[a["c"]]["end"]]
     return runs
 
 
@@ -546,6 +662,64 @@ def correspond(case, run, driver):
     return fails, ans
 
 
+def correspond_rwproto(case, run, driver):
+    """phase 6, (A): what the REAL `MyProcessLine.start` / `MyProcessLine.run` did in this run (executed by the fake process on a shim of the
+    real class) against the model's protocol programs (`workerProgram`, `startRegisters`; driver op `rwproto`): every process that ran to its
+    end performed exactly the program, every other one a prefix of it; every start registered (event, key) iff the model says so"""
+    fails = []
+    cache = {}
+
+    def model(has_wait, store, non_empty):
+        k = (has_wait, store, non_empty)
+        if k not in cache:
+            cache[k] = driver.ask({"op": "rwproto", "cfg": model_cfg(case), "has_wait": has_wait, "store": store, "non_empty": non_empty, "is_key": True})
+        return cache[k]
+    for st in run.get("rw_starts") or []:
+        m_ = model(True, st["store"], st["non_empty"])
+        if st["registered"] != m_["registers"]:
+            fails.append(F("A", "read_wait: MyProcessLine.start with a %s store %s an event and a key; the model (startRegisters) says %s"
+                           % ("non-empty" if st["non_empty"] else "still empty", "registered" if st["registered"] else "did NOT register", m_["registers"]),
+                           "A:rwproto:start:%s" % ("non-empty" if st["non_empty"] else "empty-store")))
+        if not st["store_removed"]:
+            fails.append(F("A", "read_wait: MyProcessLine.start left `_read_waiters` (the caller's dict of events) on the object that is pickled into the child",
+                           "A:rwproto:start:store-not-removed"))
+    for r in run.get("rw_programs") or []:
+        prog = model(bool(r["has_wait"]), True, False)["program"]
+        ops = r["ops"]
+        if (r["done"] and ops != prog) or ops != prog[:len(ops)]:
+            fails.append(F("A", "read_wait: the REAL MyProcessLine.run of lineage %d performed %s (0 = line ended, 1 = key written, 2 = waits for the caller)%s; "
+                           "the model's workerProgram is %s" % (r["w"], ops, " and returned" if r["done"] else "", prog), "A:rwproto:run:%s" % "".join(map(str, ops[:4]))))
+    return fails
+
+
+def correspond_overlap(case, cs, runs, driver):
+    """phase 6, (A)/(C) for calls that are alive together: the JOINT log (the steps of the first two calls in the order in which they happened,
+    each up to the end of its call) must be a run of the product system `enabled2/step2` (Model/C08.lean) from `(init c0, init c1)`, and its two
+    components must end in the outcomes the per-call replays gave (theorem overlapping_calls_project)"""
+    fails = []
+    if len(runs) < 2 or any(r["trace"] is None or r["outcome"]["kind"] == "hang" for r in runs[:2]) or any(inprocess(c) or not c["items"] for c in cs[:2]):
+        return fails
+    joint = runs[0].get("joint")
+    if joint is None:
+        return fails
+    base = ("loadTake", "loadPut", "loadFinish", "wBegin", "wGet", "wPut", "wRaise", "wRetire", "wCallback", "mEvent", "cGet", "cAbandon", "drainIn", "drainOut", "mDone")
+    if any(a["a"] not in base for a in joint):
+        return fails                                # put time-outs / foreign steps: the per-call replays have reported them
+    ans = driver.ask({"op": "trace2", "cfg": model_cfg(cs[0]), "cfg2": model_cfg(cs[1]), "trace": joint})
+    if not ans["accepted"]:
+        fails.append(F("A", "two calls alive together on one Multiprocessor object: the joint log is not a run of the product of two independent calls; first rejected step %s: %s"
+                       % (ans["at"], json.dumps(joint[ans["at"]] if ans["at"] < len(joint) else None)), "A:overlap:joint-trace"))
+        return fails
+    for k in (0, 1):
+        oc, mo = runs[k]["outcome"], ans["outcomes"][k]
+        got = [enc(o) for o in runs[k]["outs"]]
+        if mo["kind"] != oc["kind"] or mo["outs"] != got:
+            fails.append(F("A", "two calls alive together: call #%d ended %s %s, the product model's component ended %s" % (k + 1, got, oc, json.dumps(mo)), "A:overlap:outcome"))
+    if not ans["projections_agree"]:
+        fails.append(F("C", "model: the product run's components differ from the runs of the projected traces (theorem overlapping_calls_project)", "C:overlap:project"))
+    return fails
+
+
 def correspond_readwait(case, run, driver):
     """(A) for `read_wait=True` runs: the logged trace (with `wKey` / `cKey` / `drainKey`) must be a run of the layer
     `enabledR`/`stepR` (Model/C08.lean, phase 4) and end in the model's outcome; (C): `muR` decreases, the bound of
@@ -558,6 +732,7 @@ def correspond_readwait(case, run, driver):
     if run["escaped"]:
         fails.append(F("A", "an exception escaped a background thread of the real code: %s" % run["escaped"][0][:300], "A:escaped-exception"))
     trace = run["trace"]
+    fails += correspond_rwproto(case, run, driver)
     ans = driver.ask({"op": "traceR", "cfg": model_cfg(case), "trace": trace, "read_wait": True})
     if ans["fail"] is not None:
         at = ans["fail"]["at"]
@@ -594,6 +769,7 @@ def correspond_rf(case, run, driver):
     if run["escaped"]:
         fails.append(F("A", "an exception escaped a background thread of the real code: %s" % run["escaped"][0][:300], "A:escaped-exception"))
     trace = [dict(a, a="wCrashKey") if a["a"] == "wKilledKey" else a for a in run["trace"]]
+    fails += correspond_rwproto(case, run, driver)
     nf = sum(1 for a in trace if a["a"] == "wCrashKey")
     ans = driver.ask({"op": "traceRF", "cfg": model_cfg(case), "trace": trace, "faults": nf})
     if ans["fail"] is not None:
@@ -670,6 +846,12 @@ def trace_tags(case, run):
     tags = []
     tr = run["trace"] or []
     names = [a["a"] for a in tr]
+    # phase 6: the REAL MyProcessLine.start/run executed by the fake process (read_wait)
+    for st in run.get("rw_starts") or []:
+        tags.append("rwproto:real-start:%s" % ("non-empty-store" if st["non_empty"] else "empty-store"))
+    for r in run.get("rw_programs") or []:
+        tags.append("rwproto:real-run:%s" % ("complete" if r["done"] else "cut-at-" + "".join(map(str, r["ops"]))))
+    tags = sorted(set(tags))
     last_cb = None
     pills_started = pills_done = False
     npills = 0
@@ -740,7 +922,7 @@ class C08(Property):
             "table cross-checked with the driver — phase 4: over Coba.C08.indep2, theorem step_comm2); killed-worker cases (family gen_fault: the process handling item i dies, "
             "every (n,m) shape, crash before/after the caller woke up) are replayed through the fault extension enabledF/stepF (`wCrash`) and on every state of the replay the driver evaluates "
             "the conclusions of deadlock_free_faults / never_duplicated_faults (`faultInvOk`: call not returned => a step of the code is enabled; delivered + lost <= all), read_wait=True cases (family "
-            "gen_readwait, scheduled + real processes) through the key layer enabledR/stepR (`wKey`/`cKey`/`drainKey`); non-trivial = at least 2 items and a trace of at least 12 steps (or a real-process run or a history); distinct by canonical JSON")
+            "gen_readwait, scheduled + real processes) through the key layer enabledR/stepR (`wKey`/`cKey`/`drainKey`); phase 6: histories whose calls are ALIVE AT THE SAME TIME (family gen_overlap + 40 corpus cases: `script` = whose generator the caller pulls next; a sibling is read while the first call is open / after it was abandoned / after it raised), judged per call by (B), replayed per call and jointly (product system, theorem overlapping_calls_project); non-trivial = at least 2 items and a trace of at least 12 steps (or a real-process run or a history); distinct by canonical JSON")
     trusted_base = [
         "thread-based fakes for spawn_context.Queue/Event, MyProcessLine and ThreadLine (harness/props/c08_sched.py): FIFO queues, bounded put blocks, put/get with a "
         "finite timeout give up when the scheduler says so, join blocks until the thread/process body has ended, a spawned process works on a pickled private copy of "
@@ -752,7 +934,12 @@ class C08(Property):
         "NOT in the transition system: cloudpickle; the wrapper's logger/cacher/store marshalling is C01's.  Phase 4: exitcode != 0 / _main_err and read_wait=True ARE "
         "Lean transitions now (FState/ActionF, RState/ActionR); for read_wait the scheduled fake process replicates the three worker-side lines of MyProcessLine.start/run "
         "(create event + UniqueKey, write the key after the line ended, wait) — the caller side (`isinstance(i, UniqueKey)` … `.set()`) is the real code; the real "
-        "MyProcessLine.run/start are exercised by the real-process read_wait cases only",
+        "MyProcessLine.run/start are exercised by the real-process read_wait cases only.  Phase 6: no longer replicated — the fake process executes the REAL "
+        "MyProcessLine.start (on a shim object of the real class; only ProcessLine.start, which would create the OS process, is a no-op meanwhile) and the REAL "
+        "MyProcessLine.run (= real ProcessLine.run, key write through the child's real QueueSink, wait on the registered event); the op sequence is compared with the "
+        "model's workerProgram (driver op rwproto) and extracted into Generated/C08ReadWait.lean (obligations generated_worker_program / _start_registers / _caller_dispatch)",
+        "phase 6, calls alive at the same time on one object (family gen_overlap): the caller's own steps are labelled with the call whose generator it is driving; "
+        "the joint log of the first two calls is replayed through the product system enabled2/step2 (driver op trace2), each call's own steps through the single-call system",
         "translator (pre_build): Generated/C08Callback.lean is extracted with Python's ast from the current coba/pipes/multiprocessing.py (queue capacity factor, restart "
         "test, `_n_procs -= 1`, out-pill test, number of in-pills, `_main_err` test); if the source is reshaped beyond recognition defaults are written with extracted=false",
     ]
@@ -999,6 +1186,149 @@ class C08(Property):
                 f.write(body)
         notes.append("C08 translator: cap=%s restart=%s pill=%s dec=%s pills=%s consumes=%s init=%s extracted=%s"
                      % (got["cap"], got["restart"], got["pill"], got["dec"], got["pills"], got["consumes"], got["init"], ok))
+        notes += self.pre_build_readwait(src_path)
+        return notes
+
+    def pre_build_readwait(self, src_path):
+        """phase 6: regenerates lean/CobaVerif/Generated/C08ReadWait.lean — the read_wait protocol read off the CURRENT source:
+        the statement sequence of `MyProcessLine.run`, the registration test (and its position before `super().start()`) of
+        `MyProcessLine.start`, and the caller's dispatch `if read_waiters and isinstance(i, UniqueKey): read_waiters[i].set() else: yield i`.
+        Props/C08.lean proves them equal to the model's `workerProgram` / `startRegisters` / `callerSets` (`generated_worker_program`, …)."""
+        import ast
+        from core import lean as _lean
+        path = os.path.join(_lean.LEAN_DIR, "CobaVerif", "Generated", "C08ReadWait.lean")
+        got, notes = {}, []
+
+        def attr(e):
+            return e.attr if isinstance(e, ast.Attribute) else (e.id if isinstance(e, ast.Name) else None)
+
+        def is_super_call(e, name):
+            return (isinstance(e, ast.Call) and isinstance(e.func, ast.Attribute) and e.func.attr == name and isinstance(e.func.value, ast.Call)
+                    and attr(e.func.value.func) == "super" and not e.args)
+
+        def stmt_code(st):
+            """one statement of `run` -> 0 (the line), 1 (write the key LAST in the line's sink), 2 (wait on the own event), 9 (anything else)"""
+            if isinstance(st, ast.Expr) and isinstance(st.value, ast.Constant):
+                return None                                   # docstring
+            if isinstance(st, ast.Expr) and is_super_call(st.value, "run"):
+                return 0
+            if isinstance(st, ast.Expr) and isinstance(st.value, ast.Call) and isinstance(st.value.func, ast.Attribute):
+                c_, f = st.value, st.value.func
+                if (f.attr == "write" and len(c_.args) == 1 and isinstance(c_.args[0], ast.List) and len(c_.args[0].elts) == 1
+                        and attr(c_.args[0].elts[0]) == "_wait_key" and isinstance(f.value, ast.Subscript) and attr(f.value.value) == "_line"
+                        and isinstance(f.value.slice, ast.UnaryOp) and isinstance(f.value.slice.op, ast.USub)
+                        and isinstance(f.value.slice.operand, ast.Constant) and f.value.slice.operand.value == 1):
+                    return 1
+                if f.attr == "wait" and attr(f.value) == "_wait" and not c_.args and not c_.keywords:
+                    return 2
+            return 9
+
+        def has_wait_test(e):
+            return (isinstance(e, ast.Call) and attr(e.func) == "hasattr" and len(e.args) == 2 and isinstance(e.args[1], ast.Constant)
+                    and e.args[1].value == "_wait")
+
+        def cond(e, names):
+            """boolean expression over named atoms -> Lean Bool term"""
+            if isinstance(e, ast.BoolOp):
+                return "(" + (" && " if isinstance(e.op, ast.And) else " || ").join(cond(v, names) for v in e.values) + ")"
+            if isinstance(e, ast.UnaryOp) and isinstance(e.op, ast.Not):
+                return "(!" + cond(e.operand, names) + ")"
+            if isinstance(e, ast.Compare) and len(e.ops) == 1 and isinstance(e.comparators[0], ast.Constant) and e.comparators[0].value is None \
+                    and isinstance(e.ops[0], (ast.IsNot, ast.Is)) and attr(e.left) in names:
+                t = names[attr(e.left)][0]
+                return t if isinstance(e.ops[0], ast.IsNot) else "(!%s)" % t
+            if isinstance(e, ast.Name) and e.id in names:
+                return names[e.id][1]                         # truthiness of the dict: given AND non-empty
+            if isinstance(e, ast.Call) and attr(e.func) == "isinstance" and len(e.args) == 2 and attr(e.args[1]) == "UniqueKey":
+                return "isKey"
+            raise ValueError("condition not understood: %s" % ast.dump(e)[:120])
+
+        try:
+            tree = ast.parse(open(src_path, encoding="utf-8").read())
+            cls = [c for c in ast.walk(tree) if isinstance(c, ast.ClassDef) and c.name == "MyProcessLine"][0]
+            run = [f for f in cls.body if isinstance(f, ast.FunctionDef) and f.name == "run"][0]
+            start = [f for f in cls.body if isinstance(f, ast.FunctionDef) and f.name == "start"][0]
+            segs = []
+            for st in run.body:
+                if isinstance(st, ast.If) and has_wait_test(st.test) and not st.orelse:
+                    segs.append("(if hasWait then [%s] else [])" % ", ".join(str(stmt_code(x)) for x in st.body if stmt_code(x) is not None))
+                elif stmt_code(st) is not None:
+                    segs.append("[%d]" % stmt_code(st))
+            got["prog"] = " ++ ".join(segs) if segs else "[]"
+            # start(): the store is read from self._read_waiters (and removed from the object: the object is pickled into the child), the test
+            # guarding `store[key] = event`, and its position before `super().start()`
+            store_names = set()
+            for i, st in enumerate(start.body):
+                if isinstance(st, ast.Assign) and len(st.targets) == 1 and isinstance(st.targets[0], ast.Name) and attr(st.value) == "_read_waiters":
+                    store_names.add(st.targets[0].id)
+            pos_reg = pos_super = None
+            for i, st in enumerate(start.body):
+                if isinstance(st, ast.If) and pos_reg is None:
+                    regs = [x for b in st.body for x in ast.walk(b) if isinstance(x, ast.Assign) and isinstance(x.targets[0], ast.Subscript)
+                            and attr(x.targets[0].value) in store_names and attr(x.targets[0].slice) == "_wait_key" and attr(x.value) == "_wait"]
+                    makes = set(attr(x.targets[0]) for b in st.body for x in ast.walk(b) if isinstance(x, ast.Assign))
+                    if regs and {"_wait", "_wait_key"} <= makes:
+                        got["start"] = cond(st.test, {nm: ("store", "(store && nonEmpty)") for nm in store_names})
+                        pos_reg = i
+                if isinstance(st, ast.Expr) and is_super_call(st.value, "start"):
+                    pos_super = i
+            if pos_reg is not None and pos_super is not None:
+                got["order"] = "true" if pos_reg < pos_super else "false"
+            got["deletes"] = "true" if any(isinstance(st, ast.Delete) and any(attr(t) == "_read_waiters" for t in st.targets) for st in start.body) else "false"
+            # the caller's dispatch inside `for i in out_get.read()`
+            flt = [f for c in ast.walk(tree) if isinstance(c, ast.ClassDef) and c.name == "Multiprocessor"
+                   for f in c.body if isinstance(f, ast.FunctionDef) and f.name == "filter"][0]
+            for loop in ast.walk(flt):
+                if isinstance(loop, ast.For) and isinstance(loop.target, ast.Name) and isinstance(loop.iter, ast.Call) and attr(loop.iter.func) == "read":
+                    v = loop.target.id
+                    for st in loop.body:
+                        if isinstance(st, ast.If) and any(isinstance(x, ast.Call) and attr(x.func) == "isinstance" for x in ast.walk(st.test)):
+                            got["caller"] = cond(st.test, {"read_waiters": ("rw", "rw")})
+                            b = st.body
+                            ok_set = (len(b) == 1 and isinstance(b[0], ast.Expr) and isinstance(b[0].value, ast.Call) and attr(b[0].value.func) == "set"
+                                      and not b[0].value.args and isinstance(b[0].value.func.value, ast.Subscript)
+                                      and attr(b[0].value.func.value.value) == "read_waiters" and attr(b[0].value.func.value.slice) == v)
+                            got["keyact"] = 1 if ok_set else 0
+                            o = st.orelse
+                            got["else"] = "true" if (len(o) == 1 and isinstance(o[0], ast.Expr) and isinstance(o[0].value, ast.Yield)
+                                                     and attr(o[0].value.value) == v) else "false"
+        except Exception as e:      # noqa
+            notes.append("C08 translator (read_wait): extraction failed (%s: %s)" % (type(e).__name__, str(e)[:200]))
+        keys = ("prog", "start", "order", "deletes", "caller", "keyact", "else")
+        ok = all(k in got for k in keys)
+        if not ok:
+            notes.append("C08 translator (read_wait): not found in the source: %s — defaults (= the model) written, `extracted = false`" % [k for k in keys if k not in got])
+            got = {"prog": "[0] ++ (if hasWait then [1, 2] else [])", "start": "store", "order": "true", "deletes": "true", "caller": "(rw && isKey)",
+                   "keyact": 1, "else": "true"}
+        body = ("-- GENERATED by harness/props/c08.py (pre_build_readwait) from coba/pipes/multiprocessing.py on every run; do not edit.\n"
+                "set_option linter.unusedVariables false\n"
+                "namespace Coba.Generated.C08RW\n"
+                "/-- the statements of `MyProcessLine.run` in source order: 0 = `super().run()` (the line), 1 = `self._line[-1].write([self._wait_key])`,\n"
+                "2 = `self._wait.wait()`, 9 = anything else; hasWait = `hasattr(self,'_wait')` -/\n"
+                "def workerProgramCodes (hasWait : Bool) : List Nat := %s\n"
+                "/-- `MyProcessLine.start`: the test guarding `self._wait = Event(); self._wait_key = UniqueKey(); store[key] = event`\n"
+                "(store = a dict was handed in, nonEmpty = it already holds a key) -/\n"
+                "def startRegisters (store nonEmpty : Bool) : Bool := %s\n"
+                "/-- … which stands before `super().start()` (the child is pickled with `_wait`/`_wait_key`) -/\n"
+                "def registersBeforeStart : Bool := %s\n"
+                "/-- `del self._read_waiters` (the caller's dict does not travel to the child) -/\n"
+                "def storeRemoved : Bool := %s\n"
+                "/-- the caller's test on a value `i` read from the out queue (rw = `read_waiters`, isKey = `isinstance(i, UniqueKey)`) -/\n"
+                "def callerSets (rw isKey : Bool) : Bool := %s\n"
+                "/-- its body: 1 = exactly `read_waiters[i].set()`, 0 = anything else -/\n"
+                "def callerKeyAction : Nat := %d\n"
+                "/-- its else branch is exactly `yield i` -/\n"
+                "def callerElseYields : Bool := %s\n"
+                "def extracted : Bool := %s\n"
+                "end Coba.Generated.C08RW\n" % (got["prog"], got["start"], got["order"], got["deletes"], got["caller"], got["keyact"], got["else"],
+                                                 "true" if ok else "false"))
+        old = open(path, encoding="utf-8").read() if os.path.exists(path) else None
+        if old != body:
+            os.makedirs(os.path.dirname(path), exist_ok=True)
+            with open(path, "w", encoding="utf-8") as f:
+                f.write(body)
+        notes.append("C08 translator (read_wait): run=%s start=%s before-super-start=%s del-store=%s caller=%s key-action=%s else-yields=%s extracted=%s"
+                     % (got["prog"], got["start"], got["order"], got["deletes"], got["caller"], got["keyact"], got["else"], ok))
         return notes
 
     def gen_fault(self, rng):
@@ -1092,8 +1422,26 @@ class C08(Property):
             case["sched"] = {"seed": rng.below(2 ** 32), "policy": self.gen_policy(rng, n)}
         return case
 
+    def gen_overlap(self, rng):
+        """phase 6: 2-3 calls on the same Multiprocessor object alive at the same time; the caller switches between their generators
+        (`script`), abandons one while a sibling is still open, lets one raise while a sibling is open"""
+        case = self.gen_history(rng, "sched")
+        total = [sum(len(it["outs"]) for it in h["items"]) for h in case["history"]]
+        k = len(total)
+        style = rng.below(3)
+        if style == 0:          # start every call, then round robin
+            script = list(range(k)) * rng.randint(1, 3)
+        elif style == 1:        # a sibling is opened first, then the first call runs to its end / abandon / error, then the sibling again
+            script = [1] + [0] * (total[0] + 1) + [1]
+        else:
+            script = [rng.below(k) for _ in range(rng.randint(2, sum(total) + 2))]
+        case["script"] = script
+        return case
+
     def generate(self, rng, tier):
         r = rng.below(1000)
+        if 40 <= r < 65:
+            return self.gen_overlap(rng)
         if r < (9 if tier == "quick" else 3):
             k = rng.below(10)
             return self.gen_history(rng, "real") if k < 3 else self.gen_long(rng, "real") if k < 5 else self.gen_real(rng)
@@ -1165,6 +1513,8 @@ class C08(Property):
             return self.gen_history(rng)
         if r < 30:
             return self.gen_long(rng)
+        if r < 38:
+            return self.gen_overlap(rng)        # phase 6: calls alive at the same time on one object
         c = self.gen_case(rng, tier)
         if rng.chance(0.5):
             c["n"] = rng.choice([1, 2, 2, 3])
@@ -1251,6 +1601,20 @@ class C08(Property):
                    "history": [{"items": fine4, "abandon": 2}, {"items": bad3, "abandon": None}, {"items": fine4, "abandon": None}]})
         cs.append({"mode": "real", "n": 2, "m": 1, "items": [], "abandon": None,
                    "history": [{"items": bad3, "abandon": None}, {"items": fine4, "abandon": None}]})
+        # phase 6: the calls of a history ALIVE AT THE SAME TIME on one object (`script` = whose generator the caller pulls next): a sibling is read
+        # while the first call is open / after it was abandoned / after it raised; every call must deliver its own outputs exactly once
+        for n, m in ((2, 0), (1, 1), (2, 1), (3, 2), (1, 0)):
+            for pol in ("uniform", "callbacks-eager"):
+                cs.append({"mode": "sched", "n": n, "m": m, "items": [], "abandon": None, "sched": P(pol), "script": [0, 1, 0, 1, 0, 1],
+                           "history": [{"items": fine4, "abandon": None}, {"items": fine4, "abandon": None}]})
+                cs.append({"mode": "sched", "n": n, "m": m, "items": [], "abandon": None, "sched": P(pol), "script": [1, 0, 1],
+                           "history": [{"items": fine4, "abandon": 1}, {"items": fine4, "abandon": None}]})
+                cs.append({"mode": "sched", "n": n, "m": m, "items": [], "abandon": None, "sched": P(pol), "script": [1, 0, 1],
+                           "history": [{"items": bad3, "abandon": None}, {"items": fine4, "abandon": None}]})
+            cs.append({"mode": "sched", "n": n, "m": m, "items": [], "abandon": None, "sched": P("loader-fast"), "script": [0, 1, 2, 0, 2, 1],
+                       "history": [{"items": fine4, "abandon": None}, {"items": fine4, "abandon": 1}, {"items": bad3, "abandon": None}]})
+            cs.append({"mode": "sched", "n": n, "m": m, "items": [], "abandon": None, "sched": P("caller-slow"), "script": [0, 1, 0],
+                       "history": [{"items": fine4, "abandon": 2}, {"items": fine4, "abandon": 1}]})
         cs.append({"mode": "real", "n": 1, "m": 5, "abandon": None,
                    "items": [{"outs": [i % 5], "err": ("ValueError" if i == 3 else None), "gen": True} for i in range(40)]})
         # an item that cannot be pickled: the loader thread dies, its callback records the CobaException and still writes the pills
@@ -1430,6 +1794,8 @@ class C08(Property):
             runs = run_real(case)["runs"]
             if runs and runs[-1]["outcome"]["kind"] == "hang":
                 runs = run_real(case, timeout=150.0)["runs"]
+        elif case.get("script") is not None:
+            runs = run_overlap_scheduled(case)          # phase 6: the calls are alive at the same time
         else:
             runs = run_history_scheduled(case)
         agg = {"fails": [], "nontrivial": False, "tags": [], "impl": [], "model": []}
@@ -1460,6 +1826,12 @@ class C08(Property):
                 break
         agg["tags"] = sorted(set(agg["tags"])) + ["mode:" + mode, "n:%d" % case["n"], "m:%d" % case["m"], "history:%d" % len(cs),
                                                    "hist:" + ">".join(kinds[:2])]
+        if case.get("script") is not None:
+            sw = sum(1 for a, b in zip(case["script"], case["script"][1:]) if a != b)
+            agg["tags"] += ["overlap:calls-alive-together", "overlap:%d-calls" % len(cs), "overlap:switches:%s" % ("0" if sw == 0 else "1-2" if sw <= 2 else "3+"),
+                            "overlap:kinds:" + "+".join(sorted(kinds))]
+            if driver is not None and not agg["fails"] and mode != "real":
+                agg["fails"] += correspond_overlap(case, cs, runs, driver)
         if case.get("wrap"):
             agg["tags"].append("wrap:CobaMultiprocessor")
         return agg
